@@ -144,6 +144,8 @@ def gen_cases(cfg, tier, seed):
         for xi, (xkinds, shape, S, params) in enumerate(getattr(cfg, "extra_sets", [])):
             if kind not in xkinds:
                 continue
+            if params is None:
+                params = cfg.params_fn(rnd, kind, len(S))
             r = cfg.make_cmds(rnd, kind, S, params, tier)
             if r is None:
                 continue
@@ -263,6 +265,11 @@ def run(runobj, cfg, tier, seed, replay):
         if "case" not in rp:
             print("replay file names no case (obligation-level violation):", rp.get("what"))
             cases = []
+        elif "gen_index" in rp or "S" not in rp["case"].get("meta", {"S": 1}):
+            # a case of one of the component generators: replayed by the component runner
+            from props import compcheck
+            compcheck.run_components(run, cfg.components, tier, seed, replay, exe, label=" (concrete component models)")
+            return
         else:
             cases = [case_from_payload(rp["case"])]
     else:
